@@ -47,7 +47,7 @@ def diff(a: dict, b: dict):
     return changed, created, removed
 
 
-def build(d: Path, toml_link: bool = False) -> Path:
+def build(d: Path, toml_link: bool = False, dep5_link: bool = False) -> Path:
     root = d / "root"
     sent = d / "sentinel"
     (sent / "dir").mkdir(parents=True)
@@ -85,6 +85,10 @@ def build(d: Path, toml_link: bool = False) -> Path:
     (root / ".reuse" / "dep5").write_text(
         "Format: https://www.debian.org/doc/packaging-manuals/copyright-format/1.0/\nUpstream-Name: p\n\n"
         "Files: docs/*\nCopyright: 2020 Doc Writer\nLicense: MIT\n")
+    if dep5_link:      # the Debian layout: .reuse/dep5 is a symbolic link (here: to a file outside the project)
+        (sent / "debian-copyright").write_text((root / ".reuse" / "dep5").read_text())
+        (root / ".reuse" / "dep5").unlink()
+        os.symlink("../../sentinel/debian-copyright", root / ".reuse" / "dep5")
     (root / "LICENSE").write_text("see LICENSES/\n")
     (root / ".reuse" / "templates").mkdir()
     (root / ".reuse" / "templates" / "house.jinja2").write_text(
@@ -146,7 +150,7 @@ def run_case(case: dict) -> list:
     real = urllib.request.urlopen
     events = []
     try:
-        root = build(d, toml_link=bool(case.get("toml_link")))
+        root = build(d, toml_link=bool(case.get("toml_link")), dep5_link=bool(case.get("dep5_link")))
 
         def fake(url, *a, **k):
             u = url if isinstance(url, str) else url.full_url
@@ -221,6 +225,10 @@ def run(ctx: core.Ctx) -> int:
     for h in [h for h in hists if any(c["kind"] == "convert-dep5" for c in h)][: 12 if q else 200]:
         cases.append({"tid": len(cases) + 1, "hist": h, "toml_link": True,
                       "label": json.dumps(["REUSE.toml is a symlink", [[c["kind"], c["targets"]] for c in h]])})
+    # ... and once more on a tree whose .reuse/dep5 is a symbolic link to a file outside the project
+    for h in [h for h in hists if any(c["kind"] == "convert-dep5" for c in h)][: 12 if q else 200]:
+        cases.append({"tid": len(cases) + 1, "hist": h, "dep5_link": True,
+                      "label": json.dumps([".reuse/dep5 is a symlink", [[c["kind"], c["targets"]] for c in h]])})
     evl = ctx.pmap(run_case, cases, chunksize=4, daemon=False)
     events = [e for es in evl for e in es]
     for ev in [e for e in events if e["cmd"]["kind"].startswith("annotate")][:3] + events[:1]:
